@@ -496,8 +496,16 @@ impl OtlpTransportBuilder {
                         let metrics = metrics.clone();
 
                         async move {
-                            let mut status = 0;
-                            let mut msg = String::new();
+                            // A server may respond with its status in the headers instead of
+                            // the trailers if it doesn't send any content, typically on failure
+                            let mut status = res
+                                .header("grpc-status")
+                                .and_then(|v| v.parse().ok())
+                                .unwrap_or(0);
+                            let mut msg = res
+                                .header("grpc-message")
+                                .map(String::from)
+                                .unwrap_or_default();
 
                             res.stream_payload(
                                 |_| {},
